@@ -74,7 +74,8 @@ def run(repo: Repo, tier: str) -> Report:
             if hname and ast.unparse(c.func) == hname and len(c.args) == 3:
                 calls.append((ast.unparse(c.args[0]), ast.unparse(c.args[1]), ast.unparse(c.args[2]).strip("'\""), c))
             elif not hname:
-                a = [ast.unparse(x) for x in c.args]
+                a = [ast.unparse(x.args[0]) if isinstance(x, ast.Call) and ast.unparse(x.func) in ("np.datetime64", "numpy.datetime64") and len(x.args) == 1
+                     else ast.unparse(x) for x in c.args]      # the value is converted to datetime64 before the lookup (as the helper does)
                 kw = {k.arg: ast.unparse(k.value).strip("'\"") for k in c.keywords}
                 side = kw.get("side", a[1].strip("'\"") if len(a) > 1 else "left")
                 calls.append((ast.unparse(c.func.value), a[0], side, c))
@@ -87,14 +88,18 @@ def run(repo: Repo, tier: str) -> Report:
     else:
         rep.floor("searchsorted lookups in get_calibration_indices", len(calls), 4)
     # grouped arm: inside `if groups is not None`
-    garm = [s for s in fn.body if isinstance(s, ast.If) and norm_stmt(s.test) == f"{grp_p} is not None"]
-    if len(garm) != 1:
-        raise AnalysisError("missing anchor: `if groups is not None` arm in get_calibration_indices")
-    g_nodes = set(id(n) for n in ast.walk(garm[0]))
-    grouped = [c for c in calls if id(c[3]) in g_nodes]
-    plain = [c for c in calls if id(c[3]) not in g_nodes]
+    from ..rules import guard_chain as _gc
+    def _is_grouped(node) -> Optional[bool]:
+        pol = [p_ for t_, p_ in _gc(fn, node, canonical=True) if t_ in (f"{grp_p} is None", f"None is {grp_p}")]
+        return (not pol[0]) if len(pol) == 1 else None
+    arms_ = [_is_grouped(c[3]) for c in calls]
+    if None in arms_:
+        raise AnalysisError("missing anchor: every lookup of get_calibration_indices sits on one arm of the decision `groups is None`")
+    grouped = [c for c, g_ in zip(calls, arms_) if g_]
+    plain = [c for c, g_ in zip(calls, arms_) if not g_]
+
     loopvar = None
-    for n in ast.walk(garm[0]):
+    for n in [g_ for c_ in ast.walk(fn) if isinstance(c_, (ast.ListComp, ast.GeneratorExp)) for g_ in c_.generators]:
         if isinstance(n, ast.comprehension) and isinstance(n.iter, ast.Call) and ast.unparse(n.iter.func) == "range":
             loopvar = (n.target.id, ast.unparse(n.iter.args[0]) if len(n.iter.args) == 1 else None)
     for arm, cs, arr in (("grouped", grouped, f"{time_p}[{grp_p} == {loopvar[0] if loopvar else '?'}].values"), ("ungrouped", plain, f"{time_p}.values")):
@@ -105,7 +110,7 @@ def run(repo: Repo, tier: str) -> Report:
            cs[0][3] if cs else f"{arm} lookups")
     ob("R-COVER", UFILE, "get_calibration_indices", "one row per group id 0..num_groups-1", loopvar is not None and loopvar[1] == ng_p,
        f"comprehension over {loopvar}", "for ix in range(num_groups)")
-    dflt = [s for s in ast.walk(garm[0]) if isinstance(s, ast.Assign) and ast.unparse(s.targets[0]) == ng_p]
+    dflt = [s for s in ast.walk(fn) if isinstance(s, ast.Assign) and ast.unparse(s.targets[0]) == ng_p and _is_grouped(s)]
     ob("R-FORMULA", UFILE, "get_calibration_indices", "num_groups defaults to the number of distinct labels", len(dflt) == 1 and
        norm_stmt(dflt[0].value) in (f"len(np.unique(np.array({grp_p})))", f"np.unique({grp_p}).size", f"len(np.unique({grp_p}))"),
        f"{[norm_stmt(d) for d in dflt]}", dflt[0] if dflt else "num_groups default")
